@@ -277,6 +277,144 @@ def _section_reset_rule(ctx, m2):
             ctx.ok(R, {"section_line": n["ln"], "fields": sorted(set_then)})
 
 
+def _reloc_map_covers_written_rule(ctx, m2):
+    """relocation of preserved key-frame blobs: the map-building pass and the data-emitting pass of one section walk the same
+    raw-data list; every blob the data pass emits has its original offset mapped, in the same order"""
+    R = ctx.rule("C13.relocation-map-covers-every-written-blob", "for each raw-data list, the blobs emitted by the data pass (same order) are exactly the offsets the map pass assigns", floor=5)
+    f = m2.fns.get("wow_m2::model::M2Model::write")
+    if f is None or not f.hir:
+        ctx.bad(R, "M2Model::write|missing", "-", "function not found", "anchor gone")
+        return
+    ctx.saw_fn(f)
+    maps, writes = {}, {}
+    for lp in hirq.find(f.hir["body"], "for"):
+        it = hirq.render(lp["iter"])
+        m_ = re.search(r"raw_data\.(\w+)", it)
+        if not m_:
+            continue
+        lst = m_.group(1)
+        def keys_of(method):
+            out = []
+            for c_ in hirq.walk(lp["body"]):
+                if c_.get("k") == "mcall" and c_["m"] == method and c_.get("args"):
+                    for x in hirq.walk(c_["args"][0]):
+                        if x.get("k") == "field" and x["name"].startswith("original_"):
+                            out.append(x["name"])
+                        elif x.get("k") == "path" and "local" in x["res"] and re.search(r"orig|offset", x["res"]["local"]):
+                            out.append(x["res"]["local"])
+            return out
+        mapped = keys_of("entry")
+        emits = any(c_.get("k") == "mcall" and c_["m"] == "extend_from_slice" for c_ in hirq.walk(lp["body"]))
+        written = keys_of("insert") if emits else []
+        if mapped and not emits:
+            maps.setdefault(lst, []).append((mapped, lp["ln"]))
+        elif written and not mapped:
+            writes.setdefault(lst, []).append((written, lp["ln"]))
+    for lst in sorted(set(maps) | set(writes)):
+        ms, ws = maps.get(lst, []), writes.get(lst, [])
+        for (mp, mln), (wr, wln) in zip(ms, ws):
+            mk = list(mp)
+            missing = [w_ for w_ in wr if w_ not in mk]
+            if missing:
+                ctx.bad(R, "M2Model::write|%s|unmapped-%s" % (lst, missing[0]), "%s:%d" % (f.file, mln), "the data pass over raw_data.%s (line %d) emits %s, the map pass (line %d) assigns offsets only to %s" % (lst, wln, wr, mln, mk),
+                        "the unmapped blob is still written: every mapped offset after it is too small by its length, and the reference to the blob itself is zeroed — the re-parsed model has different key frames")
+            elif [x for x in mk if x in wr] != [x for x in wr if x in mk]:
+                ctx.bad(R, "M2Model::write|%s|order" % lst, "%s:%d" % (f.file, mln), "map pass assigns %s in that order, data pass writes %s" % (mk, wr), "offsets are assigned in a different order than the data is laid out")
+            else:
+                ctx.ok(R, {"list": lst, "blobs": wr, "map_line": mln, "data_line": wln})
+        if len(ms) != len(ws):
+            ctx.note_unarmed(R, lst, "map passes %d vs data passes %d recognised" % (len(ms), len(ws)))
+
+
+def _no_struct_sizeof_rule(ctx, m2):
+    """the in-memory size of a Rust struct is never a wire size: layout arithmetic may use size_of only of primitives"""
+    R = ctx.rule("C13.no-struct-size-of-in-layout", "no size_of::<crate struct>() in a writer (on-disk header/record sizes come from the version-aware size functions); size_of of primitives is fine", floor=5)
+    from .. import mirg
+    n = 0
+    for f in m2.fn_list:
+        if "::tests::" in f.path or not f.mir.get("blocks") or not re.search(r"::write(_\w+)?(::\{closure#\d+\})*$|::calculate_header_size$", norm(f.path)):
+            continue
+        for bb, t in mirg.iter_calls(f):
+            k = mirg.op_const(t["f"])
+            if not k or not re.search(r"mem::size_of$", k.get("fn") or ""):
+                continue
+            n += 1
+            ga = str(k.get("ga") or "")
+            tname = ga.strip("[]")
+
+            def pod(tn, depth=0):
+                """plain-old-data of 4-byte-aligned scalars: in-memory size == wire size"""
+                if re.fullmatch(r"[uif](8|16|32|64)|\[[uif](8|16|32|64); \d+\]", tn):
+                    return True
+                adt = next((a_ for a_ in m2.items["adts"] if a_["path"] == tn and a_.get("k") == "struct"), None)
+                if adt is None or depth > 3:
+                    return False
+                tys = [fl["ty"] for fl in adt["fields"]]
+                return all(pod(t_, depth + 1) for t_ in tys) and len({re.sub(r"\D", "", t_.split(";")[0])[-2:] for t_ in tys if re.match(r"^\[?[uif]", t_)}) <= 1
+            if re.search(r"wow_m2::|[A-Z]\w+", ga) and not pod(tname):
+                ctx.saw_fn(f)
+                ctx.bad(R, "%s|size_of-struct" % norm(f.path).split("::")[-1], "%s:%d" % (f.file, t["ln"]), "`size_of::<%s>()` is used in a writer" % ga.strip("[]")[:50],
+                        "the Rust struct's size (padding, Options, Vecs) is not the record's size in the file: offsets derived from it point into the wrong place")
+            else:
+                ctx.ok(R, {"fn": norm(f.path), "size_of": ga.strip("[]")[:40], "line": t["ln"]})
+    if n == 0:
+        ctx.note_unarmed(R, "size_of", "no size_of call in any writer")
+
+
+def _anim_entry_size_rule(ctx, m2):
+    """AnimEntry.size: what AnimFile::write stores is what AnimSection::parse inverts to the bone count"""
+    R = ctx.rule("C13.anim-entry-size-inverts-to-bone-count", "for n = 0..6 bones, AnimSection::parse's bone-count formula applied to the size AnimFile::write stores gives n", floor=1)
+    from .c10 import _ival, _NoEval
+    wr = next((f for f in m2.fn_list if f.hir and f.kind != "Closure" and re.search(r"anim::AnimFile::write(_modern)?$", norm(f.path)) and any(x.get("k") == "assign" and hirq.render(hirq.strip(x["l"])).endswith(".size") for x in hirq.walk(f.hir["body"]))), None)
+    pr = m2.fns.get("wow_m2::anim::AnimSection::parse")
+    if wr is None or pr is None or not pr.hir:
+        ctx.bad(R, "anim|missing", "-", "AnimFile::write (size assignment) or AnimSection::parse not found", "anchor gone")
+        return
+    ctx.saw_fn(wr)
+    ctx.saw_fn(pr)
+    size_expr = next(x["r"] for x in hirq.walk(wr.hir["body"]) if x.get("k") == "assign" and hirq.render(hirq.strip(x["l"])).endswith(".size"))
+    plets = {l["pat"]["name"]: l["init"] for l in hirq.find(pr.hir["body"], "let") if l["pat"].get("k") == "bind" and l.get("init") is not None}
+    if "bone_count" not in plets:
+        ctx.bad(R, "anim|parser-shape", pr.where, "no `bone_count` derivation in AnimSection::parse", "shape changed")
+        return
+    bad = None
+    try:
+        for n in range(0, 7):
+            stored = _ival(size_expr, {"__leaf__": (lambda r_, n=n: n if r_.endswith(".len()") else None)}, {})
+            got = _ival(plets["bone_count"], {"size": stored}, {k_: v_ for k_, v_ in plets.items() if k_ != "bone_count"})
+            if got != n and bad is None:
+                bad = (n, stored, got)
+    except _NoEval as e:
+        ctx.bad(R, "anim|size-not-a-function-of-bone-count", wr.where, "the stored size `%s` is not computed from the number of bones (%s), but the parser derives the bone count from it" % (hirq.render(size_expr)[:60], e),
+                "a section with key-frame data is written with a size from which the parser computes the wrong number of bones: the file does not parse back")
+        return
+    if bad:
+        ctx.bad(R, "anim|size-formula", wr.where, "for %d bones the writer stores size %d, from which the parser derives %d bones" % bad, "the file does not parse back")
+    else:
+        ctx.ok(R, {"writer_size": hirq.render(size_expr)[:60], "parser_bone_count": hirq.render(plets["bone_count"])[:40]})
+
+
+def _anim_legacy_pair_rule(ctx, m2):
+    """the legacy .anim flavour: what write_legacy emits is what parse_legacy consumes (wire signatures)"""
+    R = ctx.rule("C13.anim-legacy-reader-consumes-what-writer-emits", "AnimParser::parse_legacy's wire signature equals AnimFile::write_legacy's", floor=1)
+    rd = next((f for f in m2.fn_list if f.hir and f.kind != "Closure" and norm(f.path).endswith("anim::AnimParser::parse_legacy")), None)
+    wr = next((f for f in m2.fn_list if f.hir and f.kind != "Closure" and norm(f.path).endswith("anim::AnimFile::write_legacy")), None)
+    if rd is None or wr is None:
+        ctx.note_unarmed(R, "anim-legacy", "parse_legacy / write_legacy not both present")
+        ctx.ok(R, {"legacy_pair": "absent"})
+        return
+    ctx.saw_fn(rd)
+    ctx.saw_fn(wr)
+    rt = wire.specialise(wire.extract(m2, rd, "r")[0], {})
+    wt = wire.specialise(wire.extract(m2, wr, "w")[0], {})
+    d = wire.compare(rt, wt)
+    if d:
+        ctx.bad(R, "anim-legacy|layout", rd.where, "reader `%s` vs writer `%s`: %s" % (wire.flat(rt)[:60], wire.flat(wt)[:80], "%s: %s" % d[0]),
+                "a legacy-format .anim written by the library cannot be read back (the reader is a placeholder that consumes only the leading bytes)")
+    else:
+        ctx.ok(R, {"layout": wire.flat(wt)[:100]})
+
+
 def _conversion_path_rule(ctx, m2):
     """M2Converter's multi-step paths: for every (from, to) index pair the listed steps start next to `from` and end at `to`"""
     R = ctx.rule("C13.conversion-path-reaches-target", "build_conversion_paths: for all index pairs the upgrade slice is (from, to] ascending and the downgrade slice is [to, from) descending — decided over every ordering of the two indices", floor=2)
@@ -381,6 +519,10 @@ def run(ctx):
     _conversion_path_rule(ctx, m2)
     _track_skip_rule(ctx, m2)
     _section_reset_rule(ctx, m2)
+    _reloc_map_covers_written_rule(ctx, m2)
+    _no_struct_sizeof_rule(ctx, m2)
+    _anim_entry_size_rule(ctx, m2)
+    _anim_legacy_pair_rule(ctx, m2)
     by_owner = owners(m2)
     armed = 0
     for owner, fs in sorted(by_owner.items()):
